@@ -110,6 +110,7 @@ def in_set(real_bls, node, L: int, limit: int = 20000) -> bool:
 
 class C06(Check):
     PROP = "C06"
+    CRASH_ORACLE = "C06.roundtrip"
     WORLD = "X"
     RULE = ("each run = one generated namespace (all primitive widths and cast modes, fixed / variable arrays, utf8 / byte strings, "
             "structures with padding, unions, sealed and delimited composites, nesting <= 4, services) read by the real front end; "
